@@ -8,7 +8,7 @@
     separately.  Grains are not modelled for these features (quaternion interpolation between sections,
     known finding D4) are modelled with the quaternion routines of Quat.v. *)
 From Coq Require Import ZArith NArith List Bool.
-From WB Require Import Num Base Props World Kernels Features Bezier BezierSph SlabLayout SlabModel Quat SlabMass.
+From WB Require Import Tian Num Base Props World Kernels Features Bezier BezierSph SlabLayout SlabModel Quat SlabMass.
 Import ListNotations.
 
 Section SlabFeature.
@@ -38,7 +38,8 @@ Section SlabFeature.
 
   Inductive scomp :=
   | SCUniform (mn mx : F) (o : op) (comps : list N) (fracs : list F)
-  | SCSmooth (mn mx side : F) (o : op) (comps : list N) (a b : list F).
+  | SCSmooth (mn mx side : F) (o : op) (comps : list N) (a b : list F)
+  | SCTian (mn mx : F) (o : op) (comps : list N) (lith : lithology) (density maxw cutoff : F).   (* slab only: tian water content *)
     (* slab: min, max, side = |max - min|, top fractions, bottom fractions;
        fault: min (unused), max (unused), side distance, center fractions, side fractions *)
 
@@ -89,9 +90,19 @@ Section SlabFeature.
     | _, _, _ => None
     end.
 
-  Definition scomp_eval (fault : bool) (pd : @plane_distances F) (m : scomp) (c : N) (old : F) : F :=
+  Definition scomp_eval (fault : bool) (q : @query F) (wt : @wtemp F) (pd : @plane_distances F) (m : scomp) (c : N) (old : F) : F :=
     let d := pd_distance pd in
     match m with
+    | SCTian mn mx o comps lith density maxw cutoff =>
+        (* the range is in distance from the slab top, the pressure comes from the depth, the temperature from the whole world *)
+        if in_dist mn mx d then
+          match wt tt with
+          | Ok T =>
+              if existsb (N.eqb c) comps then apply_op o old (tian_value lith density maxw cutoff (q_depth q) T)
+              else match o with OReplace => f0 | _ => old end
+          | Err _ => old
+          end
+        else old
     | SCUniform mn mx o comps fracs =>
         let dd := if fault then fabs d else d in
         if in_dist mn mx dd then
@@ -116,6 +127,13 @@ Section SlabFeature.
           | None => match o with OReplace => f0 | _ => old end
           end
         else old
+    end.
+
+  (** a composition request throws when the nested temperature query of a water content model in range throws *)
+  Definition scomp_throws (wt : @wtemp F) (pd : @plane_distances F) (m : scomp) : bool :=
+    match m with
+    | SCTian mn mx _ _ _ _ _ _ => in_dist mn mx (pd_distance pd) && match wt tt with Ok _ => false | Err _ => true end
+    | _ => false
     end.
 
   Definition svel_eval (fault : bool) (pd : @plane_distances F) (m : svel) (old : F * F * F) : F * F * F :=
@@ -212,7 +230,7 @@ Section SlabFeature.
     else false.
 
   (** painting one property block (only called when [lf_covers]) *)
-  Definition lf_paint (g : @globals F) (tape : nat -> F) (lf : line_feature) (q : @query F) (p : prop_req) (t : nat) (blk : list F) : list F * nat :=
+  Definition lf_paint (g : @globals F) (tape : nat -> F) (lf : line_feature) (q : @query F) (wt : @wtemp F) (p : prop_req) (t : nat) (blk : list F) : list F * nat :=
     let pd := lf_distances lf q in
     let '(th, _, tot, cur, nxt) := lf_local lf pd in
     let sf := pd_section_fraction pd in
@@ -225,8 +243,8 @@ Section SlabFeature.
         ([section_interp a b sf], t)
     | PComp c =>
         let old := nth 0 blk f0 in
-        let a := fold_left (fun o m => scomp_eval fault pd m c o) (ls_comp cur) old in
-        let b := fold_left (fun o m => scomp_eval fault pd m c o) (ls_comp nxt) old in
+        let a := fold_left (fun o m => scomp_eval fault q wt pd m c o) (ls_comp cur) old in
+        let b := fold_left (fun o m => scomp_eval fault q wt pd m c o) (ls_comp nxt) old in
         ([section_interp a b sf], t)
     | PGrains c k =>
         (* both sections start from the values painted so far; the draws of the current section come first *)
@@ -247,12 +265,16 @@ Section SlabFeature.
 
   (** requests the model does not cover for these features *)
   (** a temperature request throws when a mass conserving model of the two sections rejects the plate ages *)
-  Definition lf_paint_err (lf : line_feature) (q : @query F) (p : prop_req) : bool :=
+  Definition lf_paint_err (lf : line_feature) (q : @query F) (wt : @wtemp F) (p : prop_req) : bool :=
     match p with
     | PTemp =>
         let pd := lf_distances lf q in
         let '(_, _, _, cur, nxt) := lf_local lf pd in
         existsb (stemp_throws (lf_sph lf) pd) (ls_temp cur) || existsb (stemp_throws (lf_sph lf) pd) (ls_temp nxt)
+    | PComp _ =>
+        let pd := lf_distances lf q in
+        let '(_, _, _, cur, nxt) := lf_local lf pd in
+        existsb (scomp_throws wt pd) (ls_comp cur) || existsb (scomp_throws wt pd) (ls_comp nxt)
     | _ => false
     end.
 
